@@ -96,6 +96,29 @@ UNIT = {
 """},
     ],
     "epilogue": r'''
+// The property as stated (C02): a record header (type, version, declared length) followed by that many payload bytes and
+// then ANYTHING yields exactly those header fields, exactly that payload and exactly the rest as remainder.
+pub open spec fn enc_u16(n: int) -> Seq<u8> { seq![(n / 256) as u8, (n % 256) as u8] }
+proof fn lemma_record_roundtrip(t: u8, v: u16, payload: Seq<u8>, tail: Seq<u8>, o: Framed)
+    requires payload.len() <= 16640, framing_post(seq![t] + enc_u16(v as int) + enc_u16(payload.len() as int) + payload + tail, o),
+    ensures o is Ok, o->hdr.record_type.0 == t, o->hdr.version.0 == v, o->hdr.len as int == payload.len(), o->payload =~= payload, o->rem =~= tail,
+{
+    let n = payload.len() as int;
+    let b = seq![t] + enc_u16(v as int) + enc_u16(n) + payload + tail;
+    assert(b[0] == t);
+    assert(b[1] == ((v as int) / 256) as u8 && b[2] == ((v as int) % 256) as u8);
+    assert(be16s(b, 1) == v as int);
+    assert(b[3] == (n / 256) as u8 && b[4] == (n % 256) as u8);
+    assert(be16s(b, 3) == n);
+    assert(b.subrange(5, 5 + n) =~= payload);
+    assert(b.subrange(5 + n, b.len() as int) =~= tail);
+}
+// ... and a declared length above the cap is rejected whatever follows
+proof fn lemma_oversize_rejected(b: Seq<u8>, o: Framed)
+    requires framing_post(b, o), b.len() >= 5, be16s(b, 3) > 16640,
+    ensures o == Framed::Error(ErrorKind::TooLarge),
+{}
+
 // LOCALITY (C06) as a corollary of the contract alone: if a record is framed from b, it is framed
 // identically from b ++ x, and the remainder is simply extended by x.
 proof fn lemma_framing_local(b: Seq<u8>, x: Seq<u8>, o: Framed, o2: Framed)
